@@ -1169,6 +1169,7 @@ func run(c *driver.Ctx) {
 		}
 		c.Observe("directed_cases", 1)
 	}
+	runFailedStart(c)
 	n := int64(c.N(300, 8000))
 	for i := int64(0); i < n && stuckCount < 2; i++ {
 		idx := 100 + i
